@@ -1,0 +1,22 @@
+//go:build verif
+
+// Contracts for the verification machinery in /verif (comment-only; no declarations).
+//
+// C02: swarm.Stream hands the caller's buffer to the muxed stream exactly once and reports exactly what the muxed
+// stream reported (bandwidth accounting happens on the side) - no byte is dropped, duplicated or re-sent here.
+
+package swarm
+
+//@ func (s *Stream) Read
+//@ prop C02
+//@ requires s.conn != nil && s.conn.swarm != nil
+//@ ensures ncalls(Read, 0) == 1 && arg(Read, 0, 0) == s.stream && arg(Read, 0, 1) == p
+//@ ensures result0 == ret(Read, 0, 0) && result1 == ret(Read, 0, 1)
+//@ modifies elems(p), ghost.consumed(s.stream)
+
+//@ func (s *Stream) Write
+//@ prop C02
+//@ requires s.conn != nil && s.conn.swarm != nil
+//@ ensures ncalls(Write, 0) == 1 && arg(Write, 0, 0) == s.stream && arg(Write, 0, 1) == p
+//@ ensures result0 == ret(Write, 0, 0) && result1 == ret(Write, 0, 1)
+//@ modifies nothing
